@@ -87,7 +87,9 @@ func FindClosestMatchingRoot(path string, roots []string) string {
 			return path
 		}
 
-		if !strings.HasPrefix(path, root) {
+		// the root must be a parent directory of the path, and not only share
+		// a prefix with it, like /foo does with /foobar/p.rego
+		if !strings.HasPrefix(path, strings.TrimSuffix(root, rio.PathSeparator)+rio.PathSeparator) {
 			continue
 		}
 
